@@ -537,3 +537,4 @@ PROP = Prop("C03", [
     "reference tape (vh/refs/tape.py, ~100 lines, forward and reverse sweeps cross-checked on every case) is correct",
     "scalar-valued operations only in this check; array-valued graphs are covered by C04/C07/C10/C11",
 ])
+PROP.reach_functions = ['autograd.core:add_outgrads', 'autograd.core:backward_pass', 'autograd.util:toposort', 'autograd.tracer:find_top_boxed_args', 'autograd.tracer:trace', 'autograd.core:make_vjp', 'autograd.core:make_jvp']
